@@ -84,6 +84,35 @@ def run(ctx):
                 ctx.violation("error-not-below-step", {"idx": idx, "c": c}, "4*|c-r| >= quant_factor", observed=r, expected="|c-r|<%s/4" % qf)
             if idx == 0 and (r != c or q.forward_quant(c, 0) != c):
                 ctx.violation("index0-not-lossless", {"c": c}, "index 0 changed the value", observed=r, expected=c)
+    # ---- the test case generator's index choice (test_cases/decoder/lossless_quantization.py) ----------
+    # compute_qindex_with_distinct_quant_factors must return (largest entry over ALL subbands) + MINIMUM_DISTINCT_QINDEX
+    # (theorem C12_lossless_test_case_indices_distinct then gives distinctness); checked on every default matrix
+    # and on random matrices of every shape (2D: LL/HL/LH/HH, horizontal-only: L/H)
+    from vc2_data_tables import QUANTISATION_MATRICES
+    mats = [("default:%r" % (k,), m) for k, m in QUANTISATION_MATRICES.items()]
+    for i in range(ctx.pick(300, 3000)):
+        d, dh = rng.randrange(0, 5), rng.randrange(0, 5)
+        top = rng.choice([3, 8, 40, 127])
+        m = {0: ({"L": rng.randrange(top + 1)} if dh else {"LL": rng.randrange(top + 1)})}
+        for lvl in range(1, dh + 1):
+            m[lvl] = {"H": rng.randrange(top + 1)}
+        for lvl in range(dh + 1, dh + d + 1):
+            m[lvl] = {o: rng.randrange(top + 1) for o in ("HL", "LH", "HH")}
+        mats.append(("random:%d" % i, m))
+    for name, m in mats:
+        ctx.count(1, key="qm:" + name, bucket="lossless-test-case-qindex")
+        entries = [v for sub in m.values() for v in sub.values()]
+        try:
+            qi = lq.compute_qindex_with_distinct_quant_factors(m)
+        except Exception as e:
+            ctx.violation("compute_qindex-raises", {"matrix": {str(k): v for k, v in m.items()}}, repr(e))
+            continue
+        eff = {v: max(qi - v, 0) for v in entries}
+        deq = {v: q.inverse_quant(1, e) for v, e in eff.items()}
+        if min(eff.values()) < mdq or len(set(deq.values())) != len(deq) or qi < 0:
+            ctx.violation("lossless-test-case-qindex-not-distinct", {"matrix": {str(k): v for k, v in m.items()}},
+                          "compute_qindex_with_distinct_quant_factors = %d: effective indices %r, dequantised values of 1 %r" % (
+                              qi, sorted(eff.values()), sorted(deq.values())), observed=qi, expected=max(entries) + mdq)
     ctx.trusted.append("model = Gen/Quant.v, Gen/VC2Math.v, Gen/Consts.v regenerated from /repo by the translator on this run")
 
 
@@ -96,6 +125,14 @@ def replay(ctx, data):
     inp = data["input"]
     print("replaying", data["key"], inp)
     idx = inp.get("idx", 0)
+    if "matrix" in inp:
+        m = {int(k): v for k, v in inp["matrix"].items()}
+        qi = lq.compute_qindex_with_distinct_quant_factors(m)
+        entries = [v for sub in m.values() for v in sub.values()]
+        deq = {v: q.inverse_quant(1, max(qi - v, 0)) for v in entries}
+        bad = min(max(qi - v, 0) for v in entries) < lq.MINIMUM_DISTINCT_QINDEX or len(set(deq.values())) != len(deq)
+        print("qindex", qi, "entries", sorted(set(entries)), "dequantised 1 ->", deq, "violated:", bad)
+        return 1 if bad else 0
     if "c" in inp:
         c = int(inp["c"])
         r = q.inverse_quant(q.forward_quant(c, idx), idx)
